@@ -155,6 +155,14 @@ package drpcmanager
 //@   loop 1 invariant [m] m == m0 && m.wr != nil && (!gotMeta ==> metaID == 0 && meta == nil) && (gotMeta ==> metaID == metaSid)
 //@   site AddPairs assert [C11,C02.scope] arg1 == meta && eventCount("call:AddPairs") == 0 && (meta != nil ==> gotMeta && metaSid == pkt.ID.Stream)
 //@   site (*Manager).newStream assert [C02.invoke-id] eventCount("call:(*Manager).newStream") == 0
+//@   site (*Manager).newStream assert [C01.rpc-name] bytesEq(arg4, pkt.Data) && arg3 == "srv" && arg2 == pkt.ID.Stream
+//@   ghost entry rpcArg = ""
+//@   ghost call:(*Manager).newStream rpcArg = arg4
+//@   ghost entry nsErr = nil
+//@   ghost after:(*Manager).newStream nsErr = ret1
+//@   ghost entry nsStream = nil
+//@   ghost after:(*Manager).newStream nsStream = ret0
+//@   check [C01.returns-the-new-stream] eventCount("call:(*Manager).newStream") == 1 ==> rpc == rpcArg && err == nsErr && stream == nsStream
 //@   ghost entry actx = nil
 //@   ghost after:AddPairs actx = ret
 //@   site (*Manager).newStream assert [C11,C02.attached] (gotMeta && metaSid == arg2) ==> eventCount("call:AddPairs") == 1 && arg1 == actx
@@ -203,6 +211,7 @@ package drpcmanager
 //@   check [C04.hard-unfinished] eventCount("select:2") == 1 && !old(m.opts.SoftCancel) && !cret ==> eventCount("call:(*Manager).terminate") == 1
 //@   check [C04.hard-no-packet] !old(m.opts.SoftCancel) ==> eventCount("call:(*Stream).SendCancel") == 0
 //@   check [C04.sem-released-once] eventCount("call:(*Chan).Recv") == 1
+//@   check [C04.cancel-before-wait] eventCount("call:(*Stream).Cancel") == 1 ==> eventAfterLast("call:(*Stream).Cancel", "recv")
 
 // NewWithOptions starts exactly the two goroutines (reader and stream manager) that Close waits for.
 //@ func NewWithOptions
